@@ -154,6 +154,8 @@ partial def elabStmts (ps : PS) (inst : Nat) (stmts : List Stmt) (env : List (St
     | "gate" | "ngate" =>   -- ngate: the same node built as a native node (generic readiness gate of node.cpp)
       let f := st.args.getD 2 "VV"
       simple .gate [a 0 (f.front == 'U'), a 1 ((f.drop 1).toString.front == 'U')]
+    | "nscript" =>   -- native script node: two inputs, both REQUIRED valid (the second usually wired passive)
+      simple (.script (num 0)) [a 1, a 2]
     | "script" => if st.args.length ≥ 2 then simple (.script (num 0)) [a 1 true] else simple (.script (num 0)) []
     | "sscript" =>   -- script node whose type declares schedule_on_start
       let (e', idx) := addNode e inst { lbl := key, kind := .script (num 0), ins := [], sos := true }
@@ -238,6 +240,7 @@ partial def elabStmts (ps : PS) (inst : Nat) (stmts : List Stmt) (env : List (St
          let body := sd.body.map fun s =>
            let args' := match s.kind with
              | "add" | "gate" | "ngate" => (s.args.take 2).map (shiftArg off) ++ s.args.drop 2
+             | "nscript" => s.args.take 1 ++ (s.args.drop 1).map (shiftArg off)
              | "acc" | "pass" | "sink" | "probe" => s.args.map (shiftArg off)
              | "thrower" => (s.args.take 1) ++ (s.args.drop 1).map (shiftArg off)
              | "script" => (s.args.take 1) ++ (s.args.drop 1).map (shiftArg off)
